@@ -333,3 +333,166 @@ func c01mergeWitness(r *Run) {
 		r.Fail(c01mergeSig, fmt.Sprintf("MergeCell(B1:C7); MergeCell(B5:E5): E1 reads %q before the save and %q after save+open (stored ranges %v become %v)", before, after, pre, post), ln, "mergewitness")
 	}
 }
+
+// c01sstseq: SetCellStr on A1.., save+open, SetCellStr on the following cells; the shared-string index stored
+// in every cell and the table against SaveSst (setSharedString bookkeeping, the map built at open).
+func c01sstseq(r *Run, first, second []string) {
+	var b strings.Builder
+	fmt.Fprintf(&b, "%d", len(first))
+	for _, s := range first {
+		b.WriteString(" " + hx(s))
+	}
+	fmt.Fprintf(&b, " %d", len(second))
+	for _, s := range second {
+		b.WriteString(" " + hx(s))
+	}
+	op := "sstseq " + b.String()
+	res := "PANIC"
+	func() {
+		defer func() { _ = recover() }()
+		f := xl.NewFile()
+		defer f.Close()
+		for i, s := range first {
+			if f.SetCellStr("Sheet1", "A"+strconv.Itoa(i+1), s) != nil {
+				res = "ERR"
+				return
+			}
+		}
+		g, err := c01save(f, len(first))
+		if err != nil {
+			res = "ERR-SAVE"
+			return
+		}
+		defer g.Close()
+		for i, s := range second {
+			if g.SetCellStr("Sheet1", "A"+strconv.Itoa(len(first)+i+1), s) != nil {
+				res = "ERR"
+				return
+			}
+		}
+		rows, ok := c01parse(xl.VerifC01Rows(g, "Sheet1"))
+		if !ok {
+			res = "ERR-DUMP"
+			return
+		}
+		var idx []string
+		all := append(append([]string{}, first...), second...)
+		for i := range all {
+			v := "?"
+			if i < len(rows) && len(rows[i].cells) > 0 && rows[i].cells[0].t == "s" {
+				v = rows[i].cells[0].v
+			}
+			idx = append(idx, v)
+			// direct oracle: every cell, also the ones written before the reopen, reads its own string
+			got, _ := g.GetCellValue("Sheet1", "A"+strconv.Itoa(i+1))
+			if got != c01truncate(all[i]) {
+				r.Fail("sstseq:cell-reads-other-string", fmt.Sprintf("A%d was written %s and reads %s after %d+%d SetCellStr calls around a save+open", i+1, c01q(all[i]), c01q(got), len(first), len(second)), 0, op)
+			}
+		}
+		sst := xl.VerifSharedStrings(g)
+		var sb strings.Builder
+		fmt.Fprintf(&sb, "idx=%s sst=%d", strings.Join(idx, ","), len(sst))
+		for _, t := range sst {
+			sb.WriteString(" " + hx(t))
+		}
+		res = sb.String()
+	}()
+	r.Op(op, res)
+	r.Case(op, true)
+	r.Stat("sstseq")
+}
+
+func c01sstseqPhase(r *Run, rng *Rng, n int) {
+	c01sstseq(r, nil, nil)
+	c01sstseq(r, []string{"a", "b", "a"}, []string{"b", "c", "a"})
+	c01sstseq(r, []string{"_x0041_", "A", "_x005F_x0041_", ""}, []string{"A", "_x0041_", "", "a\x01"})
+	c01sstseq(r, []string{strings.Repeat("w", 32768), strings.Repeat("w", 32767)}, []string{strings.Repeat("w", 32769)})
+	pool := []string{"a", "b", "A", "_x0041_", "_x005F_x0041_", " a", "a ", "", "a\x01", "x\ny", "<&>", "é", "_", "_x005F_"}
+	for k := 0; k < n; k++ {
+		var a, b []string
+		for i, m := 0, rng.Intn(6); i < m; i++ {
+			a = append(a, pool[rng.Intn(len(pool))])
+		}
+		for i, m := 0, rng.Intn(6); i < m; i++ {
+			if rng.Chance(30) {
+				b = append(b, c01payload(rng))
+			} else {
+				b = append(b, pool[rng.Intn(len(pool))])
+			}
+		}
+		c01sstseq(r, a, b)
+	}
+}
+
+// c01styleseq: SetCellInt and SetCellStyle (rectangles) in order on a new worksheet against SaveBook.styleRect.
+// Two styles are created first; their ids (1 and 2 on a new file) are the ones used in the spec.
+func c01styleseq(r *Run, spec string) {
+	w := strings.Fields(spec)
+	res := "bad-op"
+	func() {
+		defer func() {
+			if recover() != nil {
+				res = "PANIC"
+			}
+		}()
+		n, err := strconv.Atoi(w[0])
+		if err != nil || len(w) != 1+6*n {
+			return
+		}
+		f := xl.NewFile()
+		defer f.Close()
+		for _, b := range []bool{true, false} {
+			_, _ = f.NewStyle(&xl.Style{Font: &xl.Font{Bold: b, Italic: !b}})
+		}
+		for k := 0; k < n; k++ {
+			q := w[1+6*k : 7+6*k]
+			a, _ := strconv.Atoi(q[1])
+			b, _ := strconv.Atoi(q[2])
+			c, _ := strconv.Atoi(q[3])
+			d, _ := strconv.Atoi(q[4])
+			e, _ := strconv.ParseInt(q[5], 10, 64)
+			c1, _ := xl.CoordinatesToCellName(a+1, b+1)
+			var er error
+			if q[0] == "p" {
+				er = f.SetCellInt("Sheet1", c1, e)
+			} else {
+				c2, _ := xl.CoordinatesToCellName(c+1, d+1)
+				er = f.SetCellStyle("Sheet1", c1, c2, int(e))
+			}
+			if er != nil {
+				res = "ERR"
+				return
+			}
+		}
+		res = xl.VerifC01Rows(f, "Sheet1")
+	}()
+	ln := r.Op("styleseq "+spec, res)
+	r.Case("styleseq:"+spec, true)
+	r.Stat("styleseq")
+	if rows, ok := c01parse(res); ok {
+		if _, dense := c01denseAbs(rows); !dense {
+			r.Fail("styleseq:not-dense", "worksheet not dense after cell writes and rectangle styles", ln, "styleseq "+spec)
+		}
+	}
+}
+
+func c01styleseqPhase(r *Run, rng *Rng, n int) {
+	c01styleseq(r, "0")
+	c01styleseq(r, "3 p 1 1 0 0 5 s 0 0 2 2 1 p 3 0 0 0 7")
+	c01styleseq(r, "2 s 1 1 2 3 2 s 0 0 0 0 0")
+	for k := 0; k < n; k++ {
+		m := rng.Range(1, 6)
+		var b strings.Builder
+		b.WriteString(strconv.Itoa(m))
+		for q := 0; q < m; q++ {
+			if rng.Chance(45) {
+				fmt.Fprintf(&b, " p %d %d 0 0 %d", rng.Intn(6), rng.Intn(6), rng.Intn(100))
+			} else {
+				j1, i1 := rng.Intn(6), rng.Intn(6)
+				j2, i2 := j1+rng.Intn(4), i1+rng.Intn(4)
+				fmt.Fprintf(&b, " s %d %d %d %d %d", j1, i1, j2, i2, rng.Intn(3))
+			}
+		}
+		c01styleseq(r, b.String())
+	}
+}
